@@ -222,6 +222,31 @@ impl<'a, W> ElementWriter<'a, W> {
         self__
     }
 //@end
+//@extract writer::ElementWriter::with_attributes | src/writer.rs :: impl<'a, W> ElementWriter<'a, W> :: fn with_attributes | serves=C09
+ pub fn with_attributes<'b, I>(self, attributes: I) -> (r: Self)
+    where
+        I: IntoIterator,
+        I::Item: Into<Attribute<'b>>,
+        requires self.ew_inv(), self.start_tag.buf@.len() + 2 <= usize::MAX, // A-size
+            forall|x: I::Item| call_requires(<I::Item as Into<Attribute<'b>>>::into, (x,)),
+        // C09: the first attribute goes through the indentation state machine (write_attr), the others are appended with
+        // push_attribute: the tag only grows, its name stays, nothing is written yet
+        ensures r.ew_inv(), Self::same_writer(*old(self.writer), *r.writer), *final(r.writer) == *final(self.writer),
+            r.start_tag.name_len == self.start_tag.name_len, r.start_tag.buf@.len() >= self.start_tag.buf@.len(),
+            r.start_tag.buf@.subrange(0, self.start_tag.buf@.len() as int) == self.start_tag.buf@,
+            r.state == self.state || r.state == attr_next(self.state, (*old(self.writer)).indent, self.start_tag.name_len),
+    { let mut self__ = self;
+        let mut iter = attributes.into_iter();
+        if let Some(attr) = iter.next() {
+            self__.write_attr(attr.into());
+            let ghost b1 = self__.start_tag.buf@;
+            proof { assert(b1.subrange(0, self.start_tag.buf@.len() as int) =~= self.start_tag.buf@); }
+            self__.start_tag.extend_attributes(iter);
+            proof { assert(self__.start_tag.buf@.subrange(0, self.start_tag.buf@.len() as int) =~= b1.subrange(0, self.start_tag.buf@.len() as int)); }
+        }
+        self__
+    }
+//@end
 //@extract writer::ElementWriter::new_line | src/writer.rs :: impl<'a, W> ElementWriter<'a, W> :: fn new_line | serves=C09
  pub fn new_line(self) -> (r: Self)
         requires self.ew_inv()
